@@ -508,8 +508,9 @@ static Verdict judge(const Ref &R, const KP &kp, bool main_ex, const std::string
         V.evals++;
         size_t have = (start_ep >= 0) ? R.before[start_ep].size() : 0; std::set<Key> fresh; for(auto &c : rc.calls) for(auto &k : c) if (start_ep < 0 || !R.before[start_ep].count(k)) fresh.insert(k);
         if (rc.nl > s.budget || have + fresh.size() > (size_t) s.budget){
-            if (res.empty()) res = "budget-exceeded";
-            V.viol.push_back({"C17:restart:budget-exceeded:" + where, d.str() + "Budget " + std::to_string(s.budget) + " exceeded: " + std::to_string(have) + " samples in the recovered state + " + std::to_string(fresh.size()) + " new ones."});
+            if (res.empty()) res = "budget-exceeded:start=" + start;
+            // the overrun is a function of the recovered state, not of where the process died: the signature names the start state only
+            V.viol.push_back({"C17:restart:budget-exceeded:start=" + start, d.str() + "Budget " + std::to_string(s.budget) + " exceeded: " + std::to_string(have) + " samples in the recovered state + " + std::to_string(fresh.size()) + " new ones."});
         }
         // (2d) every loaded value is the model value, the surrogate is nodal
         V.evals++;
@@ -570,8 +571,10 @@ static void reference_checks(const Ref &R, long &evals){
 static std::vector<Scn> scenarios(const std::string &tier){
     std::vector<Scn> v; bool th = (tier == "thorough");
     std::vector<int> fams = th ? std::vector<int>{FAM_LOCALP, FAM_WAVELET, FAM_SEQUENCE, FAM_GLOBAL, FAM_FOURIER} : std::vector<int>{FAM_LOCALP, FAM_GLOBAL};
-    for(int f : fams) for(int budget : {6, 12}) for(int batch : {1, 2}){ Scn s; s.fam = f; s.budget = budget; s.batch = batch; v.push_back(s); }
-    if (th) for(int f : {FAM_LOCALP, FAM_SEQUENCE}) for(int batch : {1, 2}){ Scn s; s.fam = f; s.budget = 6; s.batch = batch; s.parallel = 1; v.push_back(s); }
+    for(int budget : {6, 12}){
+        for(int f : fams) for(int batch : {1, 2}){ Scn s; s.fam = f; s.budget = budget; s.batch = batch; v.push_back(s); }
+        if (th && budget == 6) for(int f : {FAM_LOCALP, FAM_GLOBAL}) for(int batch : {1, 2}){ Scn s; s.fam = f; s.budget = 6; s.batch = batch; s.parallel = 1; v.push_back(s); }
+    }
     return v;
 }
 static std::string g_scratch;
@@ -628,8 +631,7 @@ int main(int argc, char **argv){
     // work units: chunks of kill points
     const size_t CH = 40; struct WU { size_t r, a, b; }; std::vector<WU> W;
     for(size_t r=0; r<refs.size(); r++) for(size_t a=0; a<kps[r].size(); a+=CH) W.push_back({r, a, std::min(kps[r].size(), a + CH)});
-    // interleave the scenarios so that a deadline cuts all of them at a comparable depth (order only)
-    std::sort(W.begin(), W.end(), [](const WU &x, const WU &y){ return x.a != y.a ? x.a < y.a : x.r < y.r; });
+    // (scenarios are listed with the small budgets first, so a deadline leaves whole scenarios finished)
     double t0 = vf::now();
     vf::parallel_units(W.size(), workers, [&](size_t ui){
         const WU &w = W[ui]; const Ref &R = refs[w.r]; set_worker_dir();
